@@ -36,6 +36,8 @@ namespace V
 def add : V → V → V
   | ext a, ext b => ext (a + b)
   | nat a, nat b => nat (a + b)
+  -- a float array plus an integer literal (`B[u, v] + 1`)
+  | ext a, nat b => ext (a + .fin (b : Nat))
   | _, _ => err
 /-- is the entry selected by `np.where` (non-zero; `inf` is non-zero) -/
 def nonzero : V → Option Bool
@@ -80,6 +82,9 @@ inductive Stmt
 /-- the block and the loop headers around it -/
 structure RelaxIR where
   recognised : Bool
+  /-- where every global name the function uses comes from (`translate/cores.py` resolves imports to definitions):
+  `(name, "def <file>:<name>" | "class <file>:<name>" | "module <m>" | "builtin" | "from <file>:<name>")`, sorted by name -/
+  origins : List (String × String)
   /-- `for <rowVar> in range(<rowBound>)` (outermost), `for <nodeVar> in <nodeList>` (the block's own loop) -/
   rowVar : String
   rowBound : String
@@ -100,6 +105,12 @@ structure Env (n : Nat) where
   arr : String → Option (String × (Fin n → V))
   /-- `2 × |ix|` arrays: both rows -/
   stack : String → Option (String × (Fin n → V) × (Fin n → V))
+  /-- boolean vectors (`S`) -/
+  vec : String → Option (Vector Bool n)
+  /-- float scalars (`minD`) -/
+  sc : String → Option Ext
+  /-- names bound to the dimension -/
+  dims : String → Bool
 
 /-- `(alignment, values)` of a one-dimensional expression; all parts must be aligned with the same index list -/
 def evalL (E : Env n) : LEx → Option (String × (Fin n → V))
@@ -165,7 +176,8 @@ def runBlock (ir : RelaxIR) (D B G1 : AMat V n) (u v : Fin n) : Option (AMat V n
   let E : Env n :=
     { mat := fun y => if y = "D" then some D else if y = "B" then some B else if y = "G1" then some G1 else none,
       node := fun y => if y = ir.nodeVar then some v else if y = ir.rowVar then some u else none,
-      idx := fun _ => none, arr := fun _ => none, stack := fun _ => none }
+      idx := fun _ => none, arr := fun _ => none, stack := fun _ => none, vec := fun _ => none, sc := fun _ => none,
+      dims := fun _ => false }
   match execs ir.body E with
   | some E' => match E'.mat "D", E'.mat "B" with
     | some D', some B' => some (D', B')
@@ -184,9 +196,217 @@ def refBody : List Stmt :=
     .storeRowScalar "B" "u" "ind" "B" "u" "v" 1 ]
 
 def refIR : RelaxIR :=
-  { recognised := true, rowVar := "u", rowBound := "n", nodeVar := "v", nodeList := "V", body := refBody }
+  { recognised := true, origins := [("bool", "builtin"), ("len", "builtin"), ("np", "module numpy"), ("range", "builtin")], rowVar := "u", rowBound := "n", nodeVar := "v", nodeList := "V", body := refBody }
 
 /-- the decidable obligation generated for the relaxation block of `distance_wei` -/
 def relaxOk (ir : RelaxIR) : Bool := ir == refIR
+
+/-! ### the whole routine
+
+    n = len(G); D = np.zeros((n, n)); D[np.logical_not(np.eye(n))] = np.inf; B = np.zeros((n, n))
+    for u in range(n):
+        S = np.ones((n,), dtype=bool); G1 = G.copy(); V = [u]
+        while True:
+            S[V] = 0; G1[:, V] = 0
+            for v in V: <block>
+            if D[u, S].size == 0: break
+            minD = np.min(D[u, S])
+            if np.isinf(minD): break
+            V, = np.where(D[u, :] == minD)
+    return D, B
+-/
+
+/-- statements before the row loop -/
+inductive PStmt
+  /-- `x = len(m)` -/
+  | len (x m : String)
+  /-- `x = np.zeros((d1, d2))` -/
+  | zerosMat (x d1 d2 : String)
+  /-- `m[np.logical_not(np.eye(d))] = np.inf` -/
+  | setOffDiagInf (m d : String)
+  deriving DecidableEq, Repr
+
+/-- statements of the row loop before `while True:` -/
+inductive RStmt
+  /-- `x = np.ones((d,), dtype=bool)` -/
+  | onesVec (x d : String)
+  /-- `x = m.copy()` -/
+  | copyMat (x m : String)
+  /-- `x = [u]` -/
+  | listOf (x u : String)
+  deriving DecidableEq, Repr
+
+/-- statements of the `while True:` body -/
+inductive WStmt
+  /-- `s[v] = 0` for a boolean vector `s` and an index list `v` -/
+  | clearVec (s v : String)
+  /-- `m[:, v] = 0` -/
+  | zeroCols (m v : String)
+  /-- `for x in l: body` -/
+  | forNodes (x l : String) (body : List Stmt)
+  /-- `if m[r, s].size == 0: break` -/
+  | breakIfNoneLeft (m r s : String)
+  /-- `x = np.min(m[r, s])` -/
+  | minMasked (x m r s : String)
+  /-- `if np.isinf(x): break` -/
+  | breakIfInf (x : String)
+  /-- `x, = np.where(m[r, :] == y)` -/
+  | whereEqRow (x m r y : String)
+  deriving DecidableEq, Repr
+
+structure DijkIR where
+  recognised : Bool
+  origins : List (String × String)
+  param : String
+  pre : List PStmt
+  /-- `for <rowVar> in range(<rowBound>)` -/
+  rowVar : String
+  rowBound : String
+  rowPre : List RStmt
+  whileBody : List WStmt
+  ret : List String
+  deriving DecidableEq, Repr
+
+def pexec (E : Env n) : PStmt → Option (Env n)
+  | .len x m => match E.mat m with
+    | some _ => some { E with dims := fun y => if y = x then true else E.dims y }
+    | none => none
+  | .zerosMat x d1 d2 =>
+    if E.dims d1 ∧ E.dims d2 then
+      some { E with mat := fun y => if y = x then some (AMat.ofFn fun _ _ => V.ext (.fin 0)) else E.mat y }
+    else none
+  | .setOffDiagInf m d => match E.mat m with
+    | some M => if E.dims d then
+        some { E with mat := fun y => if y = m then some (AMat.ofFn fun i j => if i = j then M.get i j else
+          (match M.get i j with | .ext _ => V.ext .inf | _ => V.err)) else E.mat y }
+      else none
+    | none => none
+
+def rexec (E : Env n) : RStmt → Option (Env n)
+  | .onesVec x d => if E.dims d then some { E with vec := fun y => if y = x then some (Vector.ofFn fun _ => true) else E.vec y } else none
+  | .copyMat x m => match E.mat m with
+    | some M => some { E with mat := fun y => if y = x then some M else E.mat y }
+    | none => none
+  | .listOf x u => match E.node u with
+    | some i => some { E with idx := fun y => if y = x then some [i] else E.idx y }
+    | none => none
+
+def pexecs : List PStmt → Env n → Option (Env n)
+  | [], E => some E
+  | s :: ss, E => match pexec E s with
+    | some E' => pexecs ss E'
+    | none => none
+
+def rexecs : List RStmt → Env n → Option (Env n)
+  | [], E => some E
+  | s :: ss, E => match rexec E s with
+    | some E' => rexecs ss E'
+    | none => none
+
+/-- `for x in <nodes>: body` -/
+def forNodesRun (x : String) (body : List Stmt) : List (Fin n) → Env n → Option (Env n)
+  | [], E => some E
+  | v :: vs, E => match execs body { E with node := fun y => if y = x then some v else E.node y } with
+    | some E' => forNodesRun x body vs E'
+    | none => none
+
+/-- the length stored in a float cell -/
+def V.toExt? : V → Option Ext
+  | .ext x => some x
+  | _ => none
+
+/-- `np.min` of the listed cells (`none` if the list is empty or a cell is not a float) -/
+def minCells (xs : List V) : Option Ext :=
+  if xs.isEmpty then none
+  else if xs.all fun x => x.toExt?.isSome then some (xs.foldl (fun m x => match x.toExt? with | some e => Ext.min m e | none => m) .inf)
+  else none
+
+/-- one statement of the `while` body → new environment and whether `break` was executed -/
+def wexec (E : Env n) : WStmt → Option (Env n × Bool)
+  | .clearVec s v => match E.vec s, E.idx v with
+    | some S, some L => some ({ E with vec := fun y => if y = s then some (Vector.ofFn fun w => S[w] && !(L.contains w)) else E.vec y }, false)
+    | _, _ => none
+  | .zeroCols m v => match E.mat m, E.idx v with
+    | some M, some L =>
+      some ({ E with mat := fun y => if y = m then some (AMat.ofFn fun a b => if L.contains b then
+        (match M.get a b with | .ext _ => V.ext (.fin 0) | .nat _ => V.nat 0 | .err => V.err) else M.get a b) else E.mat y }, false)
+    | _, _ => none
+  | .forNodes x l body => match E.idx l with
+    | some L => (forNodesRun x body L E).map fun E' => (E', false)
+    | none => none
+  | .breakIfNoneLeft m r s => match E.mat m, E.node r, E.vec s with
+    | some _, some _, some S => some (E, ((List.finRange n).filter fun w => S[w]).isEmpty)
+    | _, _, _ => none
+  | .minMasked x m r s => match E.mat m, E.node r, E.vec s with
+    | some M, some i, some S =>
+      (minCells (((List.finRange n).filter fun w => S[w]).map fun w => M.get i w)).map fun e =>
+        ({ E with sc := fun y => if y = x then some e else E.sc y }, false)
+    | _, _, _ => none
+  | .breakIfInf x => match E.sc x with
+    | some e => some (E, e == Ext.inf)
+    | none => none
+  | .whereEqRow x m r y => match E.mat m, E.node r, E.sc y with
+    | some M, some i, some e => some ({ E with idx := fun z => if z = x then some ((List.finRange n).filter fun w => M.get i w == V.ext e) else E.idx z }, false)
+    | _, _, _ => none
+
+def wexecs : List WStmt → Env n → Option (Env n × Bool)
+  | [], E => some (E, false)
+  | s :: ss, E => match wexec E s with
+    | some (E', true) => some (E', true)
+    | some (E', false) => wexecs ss E'
+    | none => none
+
+/-- `while True: body` on fuel -/
+def whileTrue (body : List WStmt) : Nat → Env n → Option (Env n)
+  | 0, _ => none
+  | fuel + 1, E => match wexecs body E with
+    | some (E', true) => some E'
+    | some (E', false) => whileTrue body fuel E'
+    | none => none
+
+/-- `for u in <rows>: rowPre; while True: …` -/
+def forRows (ir : DijkIR) (fuel : Nat) : List (Fin n) → Env n → Option (Env n)
+  | [], E => some E
+  | u :: us, E =>
+    match rexecs ir.rowPre { E with node := fun y => if y = ir.rowVar then some u else E.node y } with
+    | some E1 => match whileTrue ir.whileBody fuel E1 with
+      | some E2 => forRows ir fuel us E2
+      | none => none
+    | none => none
+
+/-- the whole routine on the length matrix `G` (cells `ext (fin g)`, `0` = no connection); `fuel` bounds every `while` loop -/
+def runDijk (ir : DijkIR) (fuel : Nat) (G : AMat V n) : Option (List (AMat V n)) :=
+  let E0 : Env n :=
+    { mat := fun y => if y = ir.param then some G else none, node := fun _ => none, idx := fun _ => none, arr := fun _ => none,
+      stack := fun _ => none, vec := fun _ => none, sc := fun _ => none, dims := fun _ => false }
+  match pexecs ir.pre E0 with
+  | none => none
+  | some E1 =>
+    if E1.dims ir.rowBound then
+      match forRows ir fuel (List.finRange n) E1 with
+      | some E2 => ir.ret.mapM E2.mat
+      | none => none
+    else none
+
+def refWhile : List WStmt :=
+  [ .clearVec "S" "V",
+    .zeroCols "G1" "V",
+    .forNodes "v" "V" refBody,
+    .breakIfNoneLeft "D" "u" "S",
+    .minMasked "minD" "D" "u" "S",
+    .breakIfInf "minD",
+    .whereEqRow "V" "D" "u" "minD" ]
+
+def refDijk : DijkIR :=
+  { recognised := true, origins := [("bool", "builtin"), ("len", "builtin"), ("np", "module numpy"), ("range", "builtin")],
+    param := "G",
+    pre := [.len "n" "G", .zerosMat "D" "n" "n", .setOffDiagInf "D" "n", .zerosMat "B" "n" "n"],
+    rowVar := "u", rowBound := "n",
+    rowPre := [.onesVec "S" "n", .copyMat "G1" "G", .listOf "V" "u"],
+    whileBody := refWhile,
+    ret := ["D", "B"] }
+
+/-- the decidable obligation generated for the whole of `distance_wei` -/
+def dijkOk (ir : DijkIR) : Bool := ir == refDijk
 
 end Bct.CoreIR.Dijk
